@@ -435,6 +435,26 @@ func (s *Sim) readyTasks() []*Task {
 	return r
 }
 
+// CurrentLineage returns the names of the calling task and its ancestors (innermost first).
+// It lets a harness decorator attribute a call to the stream handler it descends from.
+func CurrentLineage() []string {
+	s, t := ctx()
+	if t == nil {
+		return nil
+	}
+	var out []string
+	s.mu.Lock()
+	defer s.mu.Unlock()
+	for t != nil {
+		out = append(out, t.Name)
+		if t.Parent < 0 || t.Parent >= len(s.tasks) {
+			break
+		}
+		t = s.tasks[t.Parent]
+	}
+	return out
+}
+
 // LiveTasks returns the tasks that have not finished, with a description of where they are.
 func (s *Sim) LiveTasks() []string {
 	var out []string
@@ -467,6 +487,10 @@ func (s *Sim) NumLive() int {
 func (s *Sim) release(t *Task) {
 	if s.lastRun != t {
 		s.Stats.Switches++
+		// Real clocks never tie at nanosecond resolution; the bubble's clock only moves when
+		// everything is idle. Let a microsecond pass at every task switch so that events of
+		// different tasks carry distinct timestamps (registration timestamps are identities).
+		time.Sleep(time.Microsecond)
 	}
 	s.lastRun = t
 	s.current = t
